@@ -9,6 +9,8 @@ import AcVerif.Engine.Overlap
 import AcVerif.Engine.Iter
 import AcVerif.Engine.Recipe
 import AcVerif.Engine.Gates
+import AcVerif.Engine.Replace
+import AcVerif.Engine.Stream
 /-!
 # Line-protocol driver: the model's answer to each request
 -/
@@ -128,6 +130,64 @@ def answer (r : Req) (c : Cfg) : String :=
               s!" MODEL-SPEC-MISMATCH spec={fmtList (spec.map fmtMat)}"
           | .error _ => ""
         fmtExcept (fun l => fmtList (l.map fmtMat)) res ++ chk
+    | "replace" =>
+      match r.bytes? "hay", r.list? "repl" with
+      | some hay, some repl =>
+        let variant := r.getD "variant" "bytes"
+        let stop := r.nat? "stop"
+        let whole : Input UInt8 := { hay := hay, s := 0, e := hay.length, valid := ⟨Nat.le_refl _, Nat.zero_le _⟩ }
+        let res : Except MatchErr (List Mat) := do
+          gate false
+          findIter m.A none whole
+        match res with
+        | .error e => e.name
+        | .ok ms =>
+          let fmtLog := fun (log : List (Mat × Bytes)) => fmtList (log.map fun (x, b) => s!"{fmtMat x}/{hex b}")
+          match variant with
+          | "bytes" =>
+            if repl.length != m.P.length then "panic"
+            else hex (replaceBytes hay ms (fun x => repl.getD x.pid []) none).1
+          | "withbytes" =>
+            let (o, log) := replaceBytes hay ms (fun x => repl.getD (x.pid % (max repl.length 1)) []) stop
+            s!"{hex o} {fmtLog log}"
+          | "str" =>
+            if repl.length != m.P.length then "panic"
+            else s!"{hex (replaceStr hay ms (fun x => repl.getD x.pid []) none).1} utf8=1"
+          | "withstr" =>
+            let (o, log) := replaceStr hay ms (fun x => repl.getD (x.pid % (max repl.length 1)) []) stop
+            s!"{hex o} utf8=1 {fmtLog log}"
+          | _ => "bad-variant"
+      | _, _ => "bad-request:input"
+    | "stream" | "streamrep" | "streamrepwith" =>
+      match r.bytes? "hay", r.nums? "sched" with
+      | some data, some sched =>
+        let rdr : Reader UInt8 := { data := data, sched := sched, failAt := r.nat? "rfail" }
+        let spare := r.nat? "spare"
+        match gate false with
+        | .error e => s!"{e.name} emptyreads=0"
+        | .ok () =>
+          if r.op == "stream" then
+            match streamFind m.A rdr spare with
+            | .error e => s!"{e.name} emptyreads=0"
+            | .ok (ms, err, er) =>
+              s!"{fmtList (ms.map fmtMat ++ (if err then ["io-err"] else []))} emptyreads={er}"
+          else
+            match r.list? "repl" with
+            | none => "bad-request:repl"
+            | some repl =>
+              let w : Writer UInt8 := { limit := r.nat? "wlimit" }
+              if r.op == "streamrep" && repl.length != m.P.length then "panic emptyreads=0"
+              else
+                let f := fun (x : Mat) => repl.getD (x.pid % (max repl.length 1)) []
+                match streamReplaceWith m.A rdr spare w f with
+                | .error e => s!"{e.name} emptyreads=0"
+                | .ok (w', log, ok, er) =>
+                  let res := if ok then "ok" else "io-err"
+                  if r.op == "streamrep" then s!"{hex w'.out} {res} emptyreads={er}"
+                  else
+                    let l := fmtList (log.map fun (x, b) => s!"{fmtMat x}/{hex b}")
+                    s!"{hex w'.out} {res} {l} emptyreads={er}"
+      | _, _ => "bad-request:input"
     | "recipe" =>
       match r.bytes? "hay" with
       | none => "bad-request:input"
